@@ -9,7 +9,7 @@ from ECAgent.Core import Model, System
 from ECAgent import Batching
 from ECAgent.Batching import ParameterList, ScoreMode, grid_search
 from vf.engine import Violation, InvalidCase, quiesce
-from vf.fixtures import check
+from vf.fixtures import check, wone_of
 
 PROPERTY = "C16"
 CASE_TIMEOUT_S = 20      # a case normally takes < 0.2 s; see DESIGN.md 2.9 (hang handling)
@@ -219,9 +219,9 @@ def strategy(tier):
         if mode >= 6:
             reps = max(reps, 2)
         if is_float:
-            base = st.one_of(st.integers(-64, 64).map(lambda k: k / 8.0), st.integers(-2 ** 20, 2 ** 20).map(lambda k: k / 8.0))
+            base = wone_of(st.integers(-64, 64).map(lambda k: k / 8.0), st.integers(-2 ** 20, 2 ** 20).map(lambda k: k / 8.0))
             if mode < 6:
-                base = st.one_of(base, base, base, st.sampled_from([1e300, -1e300, 1e18, -3.5e17]))
+                base = wone_of(base, base, base, st.sampled_from([1e300, -1e300, 1e18, -3.5e17]))
         else:
             big = st.sampled_from([MAXSIZE, -MAXSIZE, MAXSIZE + 1, -MAXSIZE - 1, 4 * MAXSIZE, 8 * MAXSIZE, 12 * MAXSIZE,
                                    -4 * MAXSIZE, -8 * MAXSIZE, 2 ** 70, -2 ** 70])
@@ -229,9 +229,9 @@ def strategy(tier):
             if kind == 0:
                 base = big
             elif kind == 1:
-                base = st.one_of(big, st.integers(-5, 5))
+                base = wone_of(big, st.integers(-5, 5))
             else:
-                base = st.one_of(st.integers(-5, 5), st.integers(-5, 5), st.integers(-10 ** 6, 10 ** 6))
+                base = wone_of(st.integers(-5, 5), st.integers(-5, 5), st.integers(-10 ** 6, 10 ** 6))
         scores = [[draw(base) for _ in range(reps)] for _ in range(n)]
         if n >= 2 and draw(st.integers(0, 2)) == 0:       # plant a tie between two combinations
             i, j = draw(st.integers(0, n - 1)), draw(st.integers(0, n - 1))
